@@ -21,6 +21,7 @@ def tasks(tier):
     ts = [Task('props.C05:ob_memo', name='C05/memo-keys', timeout=120), W('c05_inbreeding_roles', 'c05_inbreeding_roles'), W('inbreeding_1d.n2_G4', 'c05_inbreeding_1d', n=2, G=4), W('inbreeding_1d.n4_G3', 'c05_inbreeding_1d', n=4, G=3), W('trapz', 'c05_trapz'),
           W('direct_1d.n3_G4', 'c05_direct_1d', n=3, G=4), W('direct_1d.n2_G3_het', 'c05_direct_1d', n=2, G=3, het='xx'),
           W('direct_2d.2_1_G3', 'c05_direct_2d', nx=2, ny=1, G=3)]
+    ts += [W('betabinom_convolution.i%d_n%d_ploidy%d' % a_, 'c05_betabinom_convolution', i=a_[0], n=a_[1], ploidy=a_[2]) for a_ in ((2, 2, 2), (4, 2, 3), (5, 3, 3), (4, 2, 4))]
     ts += [W('dispatch.%dD' % P, 'c05_from_phi_dispatch', P=P) for P in (1, 2, 3, 4)]
     ts += [W('admix_props.%dD' % K, 'c05_admix_props', K=K) for K in (2, 3, 4)]
     ts += [W('analytic_1d.n3_G4', 'c05_analytic_1d', n=3, G=4), W('cached_dbeta.n2_G3', 'c05_cached_dbeta', n=2, G=3)]
@@ -43,6 +44,6 @@ MANIFEST_ENTRY = dict(
     category='other',
     engine='bounded',
     technique='sidecar contracts on the real functions: wiring / closed-form obligations from the AST discharged by z3 and the ring normaliser where the functions are within reach; bounded run-time contracts with independent oracles for the rest (never counted as proved)',
-    text='Discharged from the real source on every run (all values, stated small shapes): Numerics.trapz rule; the 1-D inbreeding sampler (every entry, BetaBinomConvolution uninterpreted); _from_phi_1D_direct / _2D_direct entry-wise + total = trapezoid mass; _from_phi_1D_analytic, cached_dbeta, _from_phi_{2,3,4,5}D_linalg = tensor product of the exact piecewise-linear sampling operator with each axis\'s own sample size (betainc uninterpreted); _from_phi_{2,3,4}D_admix_props executed with a symbolic proportion matrix; memo keys of the sampling helpers; from_phi dispatch, arguments, labels, extrap_x (1-4 D); inbreeding argument roles. Bounded run-time contracts (never counted as proved): from_phi on every path against exact polynomial integration of the binomial kernel (1-5 dimensions), mass, projection and path agreement, inbreeding sampling.',
+    text='Discharged from the real source on every run (all values, stated small shapes): Numerics.trapz rule; the 1-D inbreeding sampler (every entry, BetaBinomConvolution uninterpreted); BetaBinomConvolution itself = sum over the partition table of exp(multinomln + sum_{p=0..ploidy} count_p BetaBinomln(p)) for ploidy 2, 3, 4 (log-weights and the partition table by contract); _from_phi_1D_direct / _2D_direct entry-wise + total = trapezoid mass; _from_phi_1D_analytic, cached_dbeta, _from_phi_{2,3,4,5}D_linalg = tensor product of the exact piecewise-linear sampling operator with each axis\'s own sample size (betainc uninterpreted); _from_phi_{2,3,4}D_admix_props executed with a symbolic proportion matrix; memo keys of the sampling helpers; from_phi dispatch, arguments, labels, extrap_x (1-4 D); inbreeding argument roles. Bounded run-time contracts (never counted as proved): from_phi on every path against exact polynomial integration of the binomial kernel (1-5 dimensions), mass, projection and path agreement, inbreeding sampling.',
     note='bounded: see coverage.bounded.drivers[].bound in the evidence file for the exact domain of every driver',
 )
